@@ -4,7 +4,7 @@ import "fmt"
 
 func init() {
 	// No property is declined outright (DESIGN.md §6); C28 and C31 are claimed for their structural clauses only.
-	// Everything else starts as 'not built yet' and is removed from this list as its check is registered.
+	// Safety net: an id without a registered check would be listed as not built (none today: all 40 are registered).
 	for i := 1; i <= 40; i++ {
 		id := fmt.Sprintf("C%02d", i)
 		if _, ok := NA[id]; !ok {
